@@ -151,11 +151,13 @@ pub struct Scenario {
     pub idle_syncs: bool,
     /// construct the writer with `with_buffer` and a recycled buffer (stale content, spare capacity)
     pub ctor: u8,
+    /// after value #i is done, `set_max_len(m)` for good (a limit lowered or raised on a writer that has been used)
+    pub relimit: Option<(usize, u32)>,
 }
 
 impl Scenario {
     fn json(&self) -> serde_json::Value {
-        json!({"values": self.values.iter().map(|v| v.name()).collect::<Vec<_>>(), "max_len": self.max_len, "idle_syncs": self.idle_syncs, "constructor": self.ctor})
+        json!({"values": self.values.iter().map(|v| v.name()).collect::<Vec<_>>(), "max_len": self.max_len, "idle_syncs": self.idle_syncs, "constructor": self.ctor, "relimit": self.relimit.map(|(i, m)| vec![i as u64, m as u64])})
     }
 }
 
@@ -223,7 +225,7 @@ pub fn run_once(sc: &Scenario, lim: Limits, ch: SharedChooser, obs_out: &mut Opt
         ch: ch.clone(),
     }));
     let mut writer = if sc.ctor != 0 { AsyncWriter::with_buffer(Sink(st.clone()), dirty_buffer(sc.ctor)) } else { AsyncWriter::new(Sink(st.clone())) };
-    let max_len = match sc.max_len {
+    let mut max_len = match sc.max_len {
         Some(m) => {
             writer.set_max_len(m);
             m as usize
@@ -262,6 +264,12 @@ pub fn run_once(sc: &Scenario, lim: Limits, ch: SharedChooser, obs_out: &mut Opt
         idle_sync!("fresh writer");
     }
     for (vi, v) in sc.values.iter().enumerate() {
+        if let Some((i, m)) = sc.relimit {
+            if vi == i + 1 {
+                writer.set_max_len(m);
+                max_len = m as usize;
+            }
+        }
         let payload = v.payload();
         let armed = matches!(&payload, Some(p) if p.len() <= max_len);
         let frame: Vec<u8> = match &payload {
@@ -334,9 +342,17 @@ pub fn run_once(sc: &Scenario, lim: Limits, ch: SharedChooser, obs_out: &mut Opt
                     keys.push(hash64(&(writer.verif_state(), s.received.len(), vi, s.errors, s.zeros, drops)));
                 }
                 if sc.ctor != 0 {
-                    // a frame is in flight: the setter must not disturb it
-                    writer.set_max_len(0);
-                    writer.set_max_len(max_len as u32);
+                    // a frame is in flight: neither the setter nor flush() may disturb it (constructor 4 keeps the
+                    // default limit untouched: no setter call at all)
+                    if sc.ctor != 4 {
+                        writer.set_max_len(0);
+                        writer.set_max_len(max_len as u32);
+                    }
+                    match drive(Box::pin(writer.flush()), &st, &ch, &mut drops, 0, "flush")? {
+                        Done::Ready(Ok(())) => {}
+                        Done::Ready(Err(e)) => return Err(format!("flush() while a frame is in flight failed: {:?}", classify_err(e))),
+                        Done::Dropped => unreachable!(),
+                    }
                 }
                 let r = drive(Box::pin(writer.sync()), &st, &ch, &mut drops, lim.d, "sync")?;
                 match r {
@@ -400,15 +416,15 @@ pub fn scenarios(tier: Tier) -> (Vec<Scenario>, Limits, String) {
                 if idle && ml.is_some() {
                     continue;
                 }
-                out.push(Scenario { values: s.clone(), max_len: ml, idle_syncs: idle, ctor: 0 });
+                out.push(Scenario { values: s.clone(), max_len: ml, idle_syncs: idle, ctor: 0, relimit: None });
             }
         }
         // the recycled-buffer constructor: all sequences in the thorough tier, those of <= 1 value (and the pairs starting with a failing value) in the quick tier
         if tier == Tier::Thorough || s.len() <= 1 || matches!(s[0], Val::FailEnc | Val::PartialFail) {
-            out.push(Scenario { values: s.clone(), max_len: None, idle_syncs: true, ctor: 1 });
+            out.push(Scenario { values: s.clone(), max_len: None, idle_syncs: true, ctor: 1, relimit: None });
             if s.len() <= 1 {
-                out.push(Scenario { values: s.clone(), max_len: None, idle_syncs: false, ctor: 2 });
-                out.push(Scenario { values: s.clone(), max_len: None, idle_syncs: false, ctor: 3 });
+                out.push(Scenario { values: s.clone(), max_len: None, idle_syncs: false, ctor: 2, relimit: None });
+                out.push(Scenario { values: s.clone(), max_len: None, idle_syncs: false, ctor: 3, relimit: None });
             }
         }
     }
@@ -420,20 +436,40 @@ pub fn scenarios(tier: Tier) -> (Vec<Scenario>, Limits, String) {
             continue;
         }
         if l >= 500_000 {
-            out.push(Scenario { values: vec![v.clone(), Val::Arr(vec![5])], max_len: None, idle_syncs: false, ctor: 0 });
+            out.push(Scenario { values: vec![v.clone(), Val::Arr(vec![5])], max_len: None, idle_syncs: false, ctor: 0, relimit: None });
+            // a recycled buffer with more capacity than the default maximum does not raise the limit
+            out.push(Scenario { values: vec![v.clone(), Val::Arr(vec![5])], max_len: None, idle_syncs: false, ctor: 4, relimit: None });
             continue;
         }
         let seqs = if huge || tier == Tier::Quick { vec![vec![v.clone()]] } else { vec![vec![v.clone()], vec![Val::Arr(vec![5]), v.clone()], vec![v.clone(), Val::FailEnc]] };
         for seq in seqs {
-            out.push(Scenario { values: seq.clone(), max_len: None, idle_syncs: false, ctor: 0 });
-            out.push(Scenario { values: seq.clone(), max_len: Some(l), idle_syncs: true, ctor: 1 });
-            out.push(Scenario { values: seq.clone(), max_len: Some(l - 1), idle_syncs: false, ctor: 0 });
+            out.push(Scenario { values: seq.clone(), max_len: None, idle_syncs: false, ctor: 0, relimit: None });
+            out.push(Scenario { values: seq.clone(), max_len: Some(l), idle_syncs: true, ctor: 1, relimit: None });
+            out.push(Scenario { values: seq.clone(), max_len: Some(l - 1), idle_syncs: false, ctor: 0, relimit: None });
         }
+    }
+    // the limit changed on a writer that has been used: lowered after a larger frame (the second value must be refused),
+    // lowered to exactly the second value's size, raised
+    {
+        let big = Val::Arr(large_frames()[2].value.clone().unwrap()); // 257 payload bytes
+        let small = Val::Arr(vec![1, 2]); // 3 payload bytes
+        let tiny = Val::Arr(vec![5]); // 2 payload bytes
+        for (vals, re) in [
+            (vec![big.clone(), small.clone()], (0usize, 2u32)),
+            (vec![big.clone(), small.clone()], (0, 3)),
+            (vec![small.clone(), tiny.clone()], (0, 1)),
+            (vec![small.clone(), tiny.clone(), small.clone()], (0, 2)),
+            (vec![tiny.clone(), small.clone()], (0, 2)),
+        ] {
+            out.push(Scenario { values: vals.clone(), max_len: None, idle_syncs: false, ctor: 0, relimit: Some(re) });
+            out.push(Scenario { values: vals.clone(), max_len: Some(300), idle_syncs: false, ctor: 1, relimit: Some(re) });
+        }
+        out.push(Scenario { values: vec![small.clone(), tiny.clone()], max_len: Some(2), idle_syncs: false, ctor: 0, relimit: Some((0, 3)) });
     }
     // largest scenarios first so that the dynamic sharding balances
     out.sort_by_key(|s: &Scenario| std::cmp::Reverse(s.values.iter().map(|v| v.payload().map(|p| p.len() + 4).unwrap_or(0)).sum::<usize>()));
     let bound = format!(
-        "0..={} values over {} value kinds (3 encodable arrays of 5..7 frame bytes, 2 failing encoders), max_len in {{default, 2, 3}}, plus values with payloads of 255..65537 bytes and of 512 KiB / 512 KiB + 1 (the default maximum; deviation budget 2) (writes of more than 32 bytes accepted whole or, as one deviation each, 1 / half / all-but-one bytes); AsyncWriter::new and ::with_buffer(recycled buffer); sink: all accept sizes (free), <= {} consecutive Pending, <= {} transient errors, <= {} zero-length accepts; caller: <= {} dropped write/sync futures; total deviation budget {}",
+        "0..={} values over {} value kinds (3 encodable arrays of 5..7 frame bytes, 2 failing encoders), max_len in {{default, 2, 3}}, plus values with payloads of 255..65537 bytes and of 512 KiB / 512 KiB + 1 (the default maximum; deviation budget 2) (writes of more than 32 bytes accepted whole or, as one deviation each, 1 / half / all-but-one bytes); AsyncWriter::new and ::with_buffer(recycled buffer: stale bytes / spare capacity / 640 KiB of capacity); set_max_len lowered / raised after a value on a used writer (11 scenarios); set_max_len(0)+restore and flush() while a frame is in flight (with_buffer scenarios); sink: all accept sizes (free), <= {} consecutive Pending, <= {} transient errors, <= {} zero-length accepts; caller: <= {} dropped write/sync futures; total deviation budget {}",
         max_vals, vals.len(), lim.p, lim.e, lim.z, lim.d, lim.b
     );
     (out, lim, bound)
@@ -528,7 +564,7 @@ pub fn replay_case(case: &serde_json::Value) -> Result<(), String> {
             s => Val::Arr(serde_json::from_str::<Vec<u8>>(s).unwrap()),
         })
         .collect();
-    let scen = Scenario { values, max_len: sc["max_len"].as_u64().map(|x| x as u32), idle_syncs: sc["idle_syncs"].as_bool().unwrap_or(false), ctor: sc["constructor"].as_u64().unwrap_or(0) as u8 };
+    let scen = Scenario { values, max_len: sc["max_len"].as_u64().map(|x| x as u32), idle_syncs: sc["idle_syncs"].as_bool().unwrap_or(false), ctor: sc["constructor"].as_u64().unwrap_or(0) as u8, relimit: sc["relimit"].as_array().map(|a| (a[0].as_u64().unwrap() as usize, a[1].as_u64().unwrap() as u32)) };
     let l = &case["limits"];
     let g = |k: &str| l[k].as_u64().unwrap() as u32;
     let lim = Limits { p: g("p"), e: g("e"), d: g("d"), z: g("z"), b: g("b") };
